@@ -368,3 +368,30 @@ fn add_response_to_resources(
         }
     }
 }
+
+#[cfg(simple_dns_verif)]
+/// verification hook: run add_response_to_resources, returning what was sent to the discovery channel
+pub(crate) fn verif_add_response(
+    packet: Packet,
+    service_name: &Name<'_>,
+    full_name: &Name<'_>,
+    owned_resources: &mut ResourceRecordManager,
+    with_channel: bool,
+) -> Vec<InstanceInformation> {
+    if with_channel {
+        let (sender, receiver) = std::sync::mpsc::channel();
+        let mut on_discovery = Some(sender);
+        add_response_to_resources(
+            packet,
+            service_name,
+            full_name,
+            owned_resources,
+            &mut on_discovery,
+        );
+        drop(on_discovery);
+        receiver.into_iter().collect()
+    } else {
+        add_response_to_resources(packet, service_name, full_name, owned_resources, &mut None);
+        Vec::new()
+    }
+}
